@@ -103,7 +103,7 @@ DoExpire == /\ Len(S.sess) > 0
 DoClean == Step([op |-> "clean"], CleanSessions(S), late)
 DoWait == /\ HasSoon(S) /\ ~late
           /\ Step([op |-> "wait"], S, TRUE)
-DoPanic == \E k \in Pick({"action", "data", "struct", "record", "handler", "wrap"}) :
+DoPanic == \E k \in Pick({"action", "data", "struct", "record", "handler", "wrap", "handlerlate", "wraplate"}) :
            \E v \in Pick({"nil", "err", "str", "rt", "struct"}) : \E m \in Pick({"GET", "POST"}) :
               Step([op |-> "panic", kind |-> k, pv |-> v, m |-> m], S, late)
 \* the requests of the (small or full) request space in configuration st
